@@ -27,7 +27,7 @@ def run(tier):
         res = views.generate(name, c, rep)
         exps, seen = [], set()
         for r in vlib.emitted(res.out_path):
-            if len(r["shape"]) < 1 or r["ne"] < 1:
+            if len(r["shape"]) < 1:
                 continue
             k = json.dumps([r["root"], r["path"]], sort_keys=True)
             if k in seen:
